@@ -8,44 +8,6 @@ import (
 	"github.com/WICG/webpackage/go/internal/vh"
 )
 
-func c20Hex(c byte) (byte, bool) {
-	switch {
-	case '0' <= c && c <= '9':
-		return c - '0', true
-	case 'a' <= c && c <= 'f':
-		return c - 'a' + 10, true
-	case 'A' <= c && c <= 'F':
-		return c - 'A' + 10, true
-	}
-	return 0, false
-}
-
-// c20Decode is an independent RFC 3986 percent-decoder for a path; ok = false on a malformed escape or a raw
-// '?' / '#' (which would end the path).
-func c20Decode(s string) (string, bool) {
-	var out []byte
-	for i := 0; i < len(s); i++ {
-		switch s[i] {
-		case '?', '#':
-			return "", false
-		case '%':
-			if i+2 >= len(s) {
-				return "", false
-			}
-			h, ok1 := c20Hex(s[i+1])
-			l, ok2 := c20Hex(s[i+2])
-			if !ok1 || !ok2 {
-				return "", false
-			}
-			out = append(out, h<<4|l)
-			i += 2
-		default:
-			out = append(out, s[i])
-		}
-	}
-	return string(out), true
-}
-
 // VH_C20_PathToURL: gen-bundle's convertPathToURL (the one pure kernel of C20) for a file whose name is 1..2 (thorough
 // 1..3) SYMBOLIC bytes (any byte except '/' and NUL; not "." or ".."), directly in the base directory, inside a
 // sub-directory whose name contains a space and a '#', or two levels deep, with base URL https://example.com/base/
